@@ -92,7 +92,7 @@ def run(ctx):
                     if r.returncode < 2: viol.append(dict(why='missing/undecodable file but exit status %d: xzgrep %s -e %r -- %r (GREP wrapper: %s)' % (r.returncode, opts, pat, files, bool(grepvar))))
                 else:
                     if st is not None and r.returncode != st: viol.append(dict(why='exit status %d, grep on the decompressed data gives %d: xzgrep %s -e %r -- %r' % (r.returncode, st, opts, pat, files)))
-                if r.stdout != exp and not (bad_file and '-L' in opts):
+                if r.stdout != exp and not bad_file:   # with a missing/undecodable file only the status is specified
                     viol.append(dict(why='output differs from grep on the decompressed data with the given labels: xzgrep %s -e %r -- %r (sed fallback: %s)\n got %r\n exp %r' % (opts, pat, files, bool(grepvar), r.stdout[:300], exp[:300])))
         # xzdiff / xzcmp
         pairs = [(g, g, 0), (g, names[0], None), (g, b'missing-file', 2), (b'bad.xz', g, 2)]
